@@ -213,6 +213,14 @@ class Unit:
         """functions reachable from roots; calls into `stop` functions are not followed"""
         seen, order = set(), []
         stack = list(roots)
+        # extracted functions that generated model code calls (e.g. the element destructor behind a shared_ptr model): always
+        # part of the program text, whichever function triggers them
+        stdl0 = getattr(self.tr, "stdlib", None)
+        if stdl0 is not None:
+            for k, deps in getattr(stdl0, "model_deps", {}).items():
+                for d in deps:
+                    if d in self.tr.funcs and d not in stop:
+                        stack.append(d)
         while stack:
             n = stack.pop()
             if n in seen:
